@@ -99,8 +99,10 @@ type WOp struct {
 	Op   string `json:"op"` // write flush close reset readfrom apply
 	N    int    `json:"n,omitempty"`
 	Frag *Frag  `json:"frag,omitempty"` // readfrom source behaviour
-	Opts *WOpts `json:"opts,omitempty"` // apply
-	Sink int    `json:"sink,omitempty"` // reset: index of the sink to switch to
+	// SrcFaults: faults of the ReadFrom source (C15)
+	SrcFaults []RFault `json:"src_faults,omitempty"`
+	Opts      *WOpts   `json:"opts,omitempty"` // apply
+	Sink      int      `json:"sink,omitempty"` // reset: index of the sink to switch to
 }
 
 // WFault is a fault on a sink.
